@@ -181,6 +181,10 @@ func emitShape(pk map[string]*pkgInfo) string {
 		add("layer4_wrap_copies_buf", "bool", b2s(strings.Contains(s, "cx.buf") && !strings.Contains(s, "cx.buf = ")), "Connection.Wrap shares cx.buf with the new Connection")
 	}
 
+	for _, f := range shapeC05(l4) {
+		facts = append(facts, f)
+	}
+
 	sort.Slice(facts, func(i, j int) bool { return facts[i].name < facts[j].name })
 	var b bytes.Buffer
 	b.WriteString("(* GENERATED by tools/l4gen from /repo's working tree. Do not edit. *)\n")
@@ -387,4 +391,80 @@ func emitAccess(pk map[string]*pkgInfo) string {
 	}
 	b.WriteString("\n].\n")
 	return b.String()
+}
+
+// ---------- C05: where RouteList.Compile arms and clears the matching deadline ----------
+//
+// (appended by the C02/C05 builder) Facts about the handler function literal returned by
+// RouteList.Compile:
+//   layer4_compile_arms_at_loop_label    the statement labelled `loop:` is the assignment from
+//                                        cx.Conn.SetReadDeadline(deadline) and no other call arms it
+//   layer4_compile_clears_on_match       the `if matched {` block calls SetReadDeadline(time.Time{})
+//                                        before handler.Handle
+//   layer4_compile_clears_before_fallback the final fallback exit clears the deadline
+//   layer4_compile_last_exit_clears_deadline  the `lastMatchedRouteIdx == len(routes)-1` exit
+//                                        clears the deadline (when nothing matched) before next.Handle
+func shapeC05(l4 *pkgInfo) []fact {
+	b2s := func(b bool) string {
+		if b {
+			return "true"
+		}
+		return "false"
+	}
+	fd := l4.findFunc("RouteList", "Compile")
+	if fd == nil {
+		return nil
+	}
+	const arm = "SetReadDeadline(deadline)"
+	const clear = "SetReadDeadline(time.Time{})"
+	armsAtLabel, armCalls := false, 0
+	clearsOnMatch, lastExitClears, fallbackClears := false, false, false
+	ast.Inspect(fd.Body, func(n ast.Node) bool {
+		switch x := n.(type) {
+		case *ast.LabeledStmt:
+			if x.Label.Name == "loop" && contains(x.Stmt, l4, arm) {
+				if _, isAssign := x.Stmt.(*ast.AssignStmt); isAssign {
+					armsAtLabel = true
+				}
+			}
+		case *ast.CallExpr:
+			if strings.HasSuffix(l4.src(x), arm) {
+				armCalls++
+			}
+		case *ast.IfStmt:
+			cond := l4.src(x.Cond)
+			body := l4.src(x.Body)
+			if cond == "matched" {
+				ci := strings.Index(body, clear)
+				hi := strings.Index(body, "handler.Handle(cx)")
+				clearsOnMatch = ci >= 0 && hi >= 0 && ci < hi
+			}
+			if strings.Contains(cond, "lastMatchedRouteIdx == len(routes)-1") {
+				ci := strings.Index(body, clear)
+				hi := strings.Index(body, "next.Handle(cx)")
+				lastExitClears = ci >= 0 && hi >= 0 && ci < hi
+			}
+		case *ast.ForStmt:
+			// the fallback exit is the tail of the outer `for {}` body
+			if x.Cond == nil && x.Init == nil && x.Post == nil && len(x.Body.List) >= 2 {
+				l := x.Body.List
+				if rs, ok := l[len(l)-1].(*ast.ReturnStmt); ok && contains(rs, l4, "next.Handle(cx)") {
+					for _, st := range l[len(l)-3:] {
+						if contains(st, l4, clear) {
+							if _, isIf := st.(*ast.IfStmt); !isIf {
+								fallbackClears = true
+							}
+						}
+					}
+				}
+			}
+		}
+		return true
+	})
+	return []fact{
+		{"layer4_compile_arms_at_loop_label", "bool", b2s(armsAtLabel && armCalls == 1), "RouteList.Compile arms the matching deadline exactly once, at the `loop:` label (not per read)"},
+		{"layer4_compile_clears_on_match", "bool", b2s(clearsOnMatch), "RouteList.Compile clears the deadline in `if matched` before running the route's handlers"},
+		{"layer4_compile_clears_before_fallback", "bool", b2s(fallbackClears), "RouteList.Compile clears the deadline before the final fallback next.Handle"},
+		{"layer4_compile_last_exit_clears_deadline", "bool", b2s(lastExitClears), "the `lastMatchedRouteIdx == len(routes)-1` exit of RouteList.Compile clears the deadline before next.Handle"},
+	}
 }
